@@ -98,6 +98,17 @@ def has_dict(s):
     return any(has_dict(c) for c in kids(s))
 
 
+def whole_ok(s, top=True):
+    """sub-trees the harness can build a whole value for: TSB/TS nests; a TSL only as the written node itself"""
+    if s == 0:
+        return True
+    if s[0] == 3:
+        return False
+    if s[0] == 2 and not top:
+        return False
+    return all(whole_ok(c, False) for c in kids(s))
+
+
 def shape_at(s, path):
     for i in path:
         if s == 0:
@@ -187,6 +198,7 @@ def gen(rng, tier, prop):
     case += cons
     # history
     t = start
+    erased = set()
     hot = rng.random()
     while t < end:
         if rng.random() < 0.3 + 0.5 * hot:
@@ -205,14 +217,32 @@ def gen(rng, tier, prop):
                     p = rand_path(rng, shape, "any")
                     if p is not None:
                         sub = shape_at(shape, p)
-                        if sub is not None and not has_dict(sub):
+                        if sub is not None and whole_ok(sub):
                             line = [3, t, 3, len(p)] + p + gen_val(rng, sub, rng.choice([0.3, 0.7, 1.0]))
                 elif has_dict(shape):
                     p = rand_path(rng, shape, "dict")
                     if p is not None and kind(shape_at(shape, p)) == 3:
                         line = [3, t, 4 if rng.random() < 0.5 else 5, len(p)] + p + [rng.choice(KEYS)]
                 if line:
-                    case.append(line)
+                    # a key erased earlier in this cycle must not be navigated through / re-created in it
+                    # (the slot is resurrected with its old state; dictionary slot life-cycle is C05's subject)
+                    pl = line[3]
+                    pth = line[4:4 + pl]
+                    hit = False
+                    cur = shape
+                    for n, i in enumerate(pth):
+                        if kind(cur) == 3:
+                            if (t, tuple(pth[:n]), i) in erased:
+                                hit = True
+                            cur = cur[1]
+                        else:
+                            cur = kids(cur)[i]
+                    if line[2] == 4 and (t, tuple(pth), line[-1]) in erased:
+                        hit = True
+                    if line[2] == 5:
+                        erased.add((t, tuple(pth), line[-1]))
+                    if not hit:
+                        case.append(line)
         t += rng.choice([1, 1, 1, 2, 3])
     return case
 
